@@ -236,7 +236,14 @@ def run_task(task):
 
     def body():
         e = S.engine()
-        run = e2.run_e2(I, flags, [(c_, list(a_)) for c_, a_ in task.get('seq', [])], hook_factory=values_hook, clock=True)
+        numerics = None
+        if task.get('seq'):
+            # load-balancing runs: quotas / targets in 0..3 so that code converting a variable value to a
+            # Python int enumerates finitely many values
+            J0, dom0, free0 = e2.sym_numerics(I)
+            numerics = (J0, dom0 + [v <= 3 for v in free0], free0)
+        run = e2.run_e2(I, flags, [(c_, list(a_)) for c_, a_ in task.get('seq', [])], hook_factory=values_hook, clock=True,
+                        numerics=numerics)
         m = run.solver.model
         x = {}
         for row in m.pairs:
